@@ -7,9 +7,10 @@ tuple of compile-time constants, tuple of clipped integers, plus constexpr evalu
 line "kind=result;kind=result;...".  The extracted model (where one exists: the Index / Broadcast
 functions proved in C01 / C06) gives the ideal result; otherwise the std::vector row is the reference.
 """
-import hashlib, os, random, re
+import hashlib, os, random, re, sys
 from collections import Counter
 from harness import core
+from harness.props import c01
 
 ID = "C09"
 MODEL_MODULES = ["Base", "Index", "Broadcast", "Views", "Select", "KindIndep"]
@@ -298,6 +299,9 @@ def gen_cases(rng, tier):
     out = []
     for i, (fn, vals, rows) in enumerate(cases):
         out.append(("kinds", "g I:%d S:%s %s" % (i, fn, " ".join(_fmt(v) for v in vals)), "c09"))
+    _state["borrow_c01"] = True
+    for stream, line, key in c01.gen_cases(rng, tier):
+        out.append(("index-kinds/" + stream, line, "c01"))
     return out
 
 
@@ -323,22 +327,34 @@ def drivers(tier):
             if not hit: break            # not attributable to a row: a genuinely broken build, reported by core
             rejected |= hit
         specs.append(spec)
-    return {"c09": specs}
+    out = {"c09": specs}
+    # C01's stream runs compute_strides / compute_offset / compute_indices / ndindex / the layout functors through 10 container kinds
+    # with 64- and 32-bit elements on small AND near-2^32 / 2^63 index spaces: "same result for every kind" at the edge of the numeric range
+    if _state.get("borrow_c01", False): out["c01"] = [sp for sp in c01.drivers(tier)["c01"] if sp[1] == "ndebug"]
+    return out
+
+
+def model_for(dkey):
+    return c01 if dkey == "c01" else sys.modules[__name__]
 
 
 def nontrivial(line):
+    if not line.startswith("g "): return c01.nontrivial(line) if hasattr(c01, "nontrivial") else True
     ls = re.findall(r"L:([0-9,\-]*)", line)
     return any(len(x.split(",")) >= 2 for x in ls)
 
 
 def distribution(streams):
     fn = Counter()
-    for _, line, _ in streams: fn[line.split(" ")[2][2:]] += 1
+    for _, line, _ in streams: fn[line.split(" ")[2][2:] if line.startswith("g ") else "c01:" + line.split(" ")[0]] += 1
     return {"function": dict(fn), "compile_rejected_rows": sorted("%d:%s" % r for r in _state.get("rejected", []))[:50],
             "rows_total": sum(len(c[2]) for c in _state.get("cases", []))}
 
 
 def classify(line, impl, spec, model):
+    if not line.startswith("g "):
+        cls = c01.classify(line, impl, spec, model) if hasattr(c01, "classify") else None
+        return ("c01:" + cls) if cls else None
     """known finding family: a tuple of clipped integers as argument — the result inherits per-position
     bounds from the operand and the ideal values are clamped to them (def.hpp clipped_integer_t)"""
     fi = dict(x.split("=", 1) for x in impl.strip().strip(";").split(";") if "=" in x)
